@@ -1,9 +1,9 @@
 package main
 
 import (
-	"sort"
 	"go/token"
 	"go/types"
+	"sort"
 	"strings"
 
 	"golang.org/x/tools/go/ssa"
@@ -552,8 +552,8 @@ func ruleBatchDelivery(c *Ctx, r *R) {
 		// blocks where err is known != nil and != End and that leave the loop without storing it
 		pf := &PF{N: 4} // 0 unknown, 1 nil-or-End (benign), 2 pending error, 3 recorded/self-cancel
 		pf.Edge = func(fn *ssa.Function, g guard, q int) (StateSet, bool) {
-		b := g.blk
-		_ = b
+			b := g.blk
+			_ = b
 			cf, ok := g.asCmp()
 			if !ok {
 				return 0, false
@@ -636,59 +636,59 @@ func ruleBatchDelivery(c *Ctx, r *R) {
 		}
 	}
 	for _, rf := range errReaders {
-	rf := rf
-	instrs(rf, func(b *ssa.BasicBlock, i int, in ssa.Instruction) {
-		ld, ok := in.(*ssa.UnOp)
-		if !ok || ld.Op != token.MUL {
-			return
-		}
-		fa, ok := ld.X.(*ssa.FieldAddr)
-		if !ok || fieldName(fa.X.Type(), fa.Field) != "err" {
-			return
-		}
-		nr++
-		closedSeen := false
-		for _, g := range guardsOf(b) {
-			if v, val := g.boolVal(); !val {
-				// the tested flag is the ok of a receive from batchC (in every select it can come from)
-				ls := valueLeaves(v, nil, 0)
-				all := len(ls) > 0
-				for _, lf := range ls {
-					isOK := false
-					if ex, ok := lf.v.(*ssa.Extract); ok && ex.Index == 1 {
-						if sel, ok := ex.Tuple.(*ssa.Select); ok {
-							for _, st := range sel.States {
-								if st.Dir == types.RecvOnly && fieldOfChan(st.Chan) == "batchC" {
-									isOK = true
+		rf := rf
+		instrs(rf, func(b *ssa.BasicBlock, i int, in ssa.Instruction) {
+			ld, ok := in.(*ssa.UnOp)
+			if !ok || ld.Op != token.MUL {
+				return
+			}
+			fa, ok := ld.X.(*ssa.FieldAddr)
+			if !ok || fieldName(fa.X.Type(), fa.Field) != "err" {
+				return
+			}
+			nr++
+			closedSeen := false
+			for _, g := range guardsOf(b) {
+				if v, val := g.boolVal(); !val {
+					// the tested flag is the ok of a receive from batchC (in every select it can come from)
+					ls := valueLeaves(v, nil, 0)
+					all := len(ls) > 0
+					for _, lf := range ls {
+						isOK := false
+						if ex, ok := lf.v.(*ssa.Extract); ok && ex.Index == 1 {
+							if sel, ok := ex.Tuple.(*ssa.Select); ok {
+								for _, st := range sel.States {
+									if st.Dir == types.RecvOnly && fieldOfChan(st.Chan) == "batchC" {
+										isOK = true
+									}
 								}
 							}
 						}
+						if k, isK := lf.v.(*ssa.Const); isK && k.Value != nil && k.Value.String() == "false" {
+							isOK = true // the variable's initial value: never reaches the read without a receive
+						}
+						if !isOK {
+							all = false
+						}
 					}
-					if k, isK := lf.v.(*ssa.Const); isK && k.Value != nil && k.Value.String() == "false" {
-						isOK = true // the variable's initial value: never reaches the read without a receive
-					}
-					if !isOK {
-						all = false
-					}
-				}
-				if all {
-					closedSeen = true
-				}
-			}
-		}
-		if rf != nx {
-			// inside the extracted helper: the read must be under its ok parameter being false, and the helper must
-			// only be called with the ok of a receive from batchC (checked by the closed-block rule)
-			for _, g := range guardsOf(b) {
-				if v, val := g.boolVal(); !val {
-					if _, isP := v.(*ssa.Parameter); isP {
+					if all {
 						closedSeen = true
 					}
 				}
 			}
-		}
-		r.ok(closedSeen, "stream.batchStream.Next|err-read-after-close#"+itoa(nr), ld.Pos(), "iter.err may only be read after batchC was observed closed (happens-before with the producer's write)")
-	})
+			if rf != nx {
+				// inside the extracted helper: the read must be under its ok parameter being false, and the helper must
+				// only be called with the ok of a receive from batchC (checked by the closed-block rule)
+				for _, g := range guardsOf(b) {
+					if v, val := g.boolVal(); !val {
+						if _, isP := v.(*ssa.Parameter); isP {
+							closedSeen = true
+						}
+					}
+				}
+			}
+			r.ok(closedSeen, "stream.batchStream.Next|err-read-after-close#"+itoa(nr), ld.Pos(), "iter.err may only be read after batchC was observed closed (happens-before with the producer's write)")
+		})
 	}
 	// sibling !ok blocks (the handling may have been extracted into a helper that both arms tail-call)
 	nb := 0
